@@ -602,5 +602,8 @@ def run(ck):
     reevaluate(ck, 'C07.g', 'c09', lambda r, k: r == 'C09.a',
                'an extended frame that no longer fits the receive block is recorded as an overflow by the receive sink, never parsed truncated')
     ck.rule('C07.h', 'a frame truncated to nothing is still a frame the receiver sees: on a serial channel frame boundaries - empty frames included - are the SLIP decoder\'s transition table (C12.e re-evaluated), so every truncation is classified (bad header encoding) and answered')
+    ck.rule('C07.i', 'the checksums the receive chain compares are CRC-16/ARC over ALL the octets / words it hands over: table, step and the folds of ufw_crc16_arc / ufw_crc16_arc_u16 (count to zero at full width, every datum fed once) are what C16 proves (re-evaluated) - a fold that covers only part of a large payload lets damage behind it through')
+    reevaluate(ck, 'C07.i', 'c16', lambda r, k: r in ('C16.fold', 'C16.table', 'C16.step', 'C16.init'),
+               'check_payload and parse_header compare against ufw_buffer_crc16_arc(_u16) / ufw_crc16_arc_u16 results')
     reevaluate(ck, 'C07.h', 'c12', lambda r, k: r == 'C12.e',
                'regp_recv gets one frame per call from rfc1055_decode: a delimiter in NORMAL state ends a frame, whatever was delivered before')
